@@ -179,18 +179,19 @@ class GroundedEffect:
         """
         self.logger.debug("The antecedents for the effect hold so applying the effect.")
         self._apply_discrete_effects(next_state_predicates=state.state_predicates)
-        new_values = []
+        # the right-hand sides are evaluated on the state before the action - when it was not given, on a
+        # snapshot of the fluents taken before the first update - so that the effects can be applied one
+        # by one and several increases / decreases of the same function accumulate.
+        previous_state_functions = (
+            previous_state.state_fluents
+            if previous_state is not None
+            else {name: fluent.copy() for name, fluent in state.state_fluents.items()}
+        )
         for grounded_expression in self.grounded_numeric_effects:
-            new_values.append(
-                self._update_single_numeric_expression(
-                    grounded_expression,
-                    previous_state_functions=(
-                        previous_state if previous_state is not None else state
-                    ).state_fluents,
-                    current_state_functions=state.state_fluents,
-                )
+            new_value = self._update_single_numeric_expression(
+                grounded_expression,
+                previous_state_functions=previous_state_functions,
+                current_state_functions=state.state_fluents,
             )
-
-        for new_value in new_values:
             # storing a copy - the function object belongs to the grounded effect and changes on its next use.
             state.state_fluents[new_value.untyped_representation] = new_value.copy()
